@@ -28,11 +28,24 @@ def _class(inst, d):
         a = inst.get('after', '')
         if a[:1] in ('(', '.') or a.startswith('::') or a[:1] == ',' or a.startswith(':='):
             return 'keyword-absorbed-by-following:' + ('(' if a[:1] == '(' else '.' if a[:1] == '.' else '::' if a.startswith('::') else a[:1])
+        # the same three followers after whitespace: the lexer rule is `word (?=\s*\.)`, group_typecasts / group_assignment
+        # look at the previous non-whitespace token
+        text = inst.get('text', '')
+        pre = inst.get('pre', '')
+        tail = text[len(pre) + len(inst.get('expected', '')):].lstrip()
+        for sym in ('::', ':=', '.'):
+            if a.strip() == '' and tail.startswith(sym):
+                return 'keyword-absorbed-by-following:' + sym
         return 'deviation:keyword:after=%r' % a
     if k == 'create_or_replace':
         if inst.get('sp') != '  ' and isinstance(d.get('observed'), str) and ' '.join(d['observed'].split()) == 'CREATE OR REPLACE':
             return 'create-or-replace-inner-whitespace-kept'
         return 'deviation:create_or_replace'
+    if k == 'cte':
+        # the DML keyword after the CTE list, followed (after whitespace) by `::`, `:=` or `.`: absorbed as everywhere
+        for sym in ('::', ':=', '.'):
+            if inst.get('rest', '').lstrip().startswith(sym):
+                return 'keyword-absorbed-by-following:' + sym
     return 'deviation:' + k
 
 
